@@ -284,19 +284,19 @@ Lemma rename_coherent f o n g :
   coherentb f = true -> impl_rename f o n = Ok g -> coherentb g = true.
 Proof.
   intros C H. apply coherent_elim in C as [R T]. unfold impl_rename in H.
-  destruct (negb (memb o (dvars f)) || memb n (dvars f) || memb n (varlist f)) eqn:G; [discriminate|].
-  apply orb_false_iff in G as [G G3]. apply orb_false_iff in G as [G1 G2]. apply negb_false_iff in G1.
+  destruct (negb (memb o (dvars f)) || Nat.eqb o n) eqn:G; [discriminate|].
+  apply orb_false_iff in G as [G1 G2]. apply negb_false_iff in G1.
   destruct (tflag_part_elim _ T) as (s1 & r0 & t & ET & ES & ER). rewrite ET in H.
   destruct (negb (Nat.eqb s1 (vardim f))); [discriminate|].
   pose proof (coh_rest_elim _ R) as (H1 & H2 & H3 & H4 & H5 & H6 & H7 & H8 & H9).
-  assert (NO : Nat.eqb n o = false).
-  { destruct (Nat.eqb n o) eqn:E; [|reflexivity]. apply Nat.eqb_eq in E. subst. congruence. }
+  assert (NO : Nat.eqb n o = false) by (rewrite Nat.eqb_sym; exact G2).
   set (f1 := add2varlist f (dvars f)) in *.
-  set (f2 := add2varlist (set_dvars f1 (dvars f1 ++ [n])) [n]) in *.
+  set (f2 := add2varlist (set_dvars f1 (if memb n (dvars f1) then dvars f1 else dvars f1 ++ [n])) [n]) in *.
   set (f3 := set_dvars f2 (filter (fun k => negb (Nat.eqb k o)) (dvars f2))) in *.
   set (vl := dedup (filter (fun k => memb k (dvars f3)) (map (fun k => if Nat.eqb k o then n else k) (varlist f3)))) in *.
   assert (D3 : In n (dvars f3)).
-  { unfold f3; simpl. apply filter_In. split; [apply in_or_app; right; left; reflexivity|]. rewrite NO. reflexivity. }
+  { unfold f3; simpl. apply filter_In. split; [|rewrite NO; reflexivity].
+    destruct (memb n (dvars f)) eqn:MN; [apply memb_In; exact MN|apply in_or_app; right; left; reflexivity]. }
   assert (V3 : In n (varlist f3)).
   { unfold f3, f2; simpl.
     match goal with |- context [if ?c then _ else _] => destruct c eqn:E end.
@@ -440,6 +440,37 @@ Proof.
     match goal with |- (if ?c then _ else _) = true => destruct c; [|reflexivity] end. apply pair_eqb_same.
 Qed.
 
+(* ---- deleting a variable and refreshing the metadata ----------------------------------------------------------------- *)
+Lemma copy_varlist f g : impl_copy f = Ok g -> varlist g = varlist f.
+Proof. unfold impl_copy. intros H. apply updatetflag_fields in H as (_ & _ & _ & H4 & _). simpl in H4. exact H4. Qed.
+
+Lemma delete_coherent f k g :
+  coherentb f = true -> iop_region f (IDelete k) = 0%nat -> impl_delete f k = Ok g -> coherentb g = true.
+Proof.
+  intros C Rg H. unfold impl_delete in H. destruct (negb (memb k (dvars f))); [discriminate|]. bindinv H.
+  pose proof (copy_coherent _ _ C E) as Ca. destruct (copy_fields _ _ E) as (_ & _ & DV). pose proof (copy_varlist _ _ E) as VL.
+  pose proof (coherent_elim _ C) as [R _]. pose proof (listed_all _ R) as L.
+  apply coherent_elim in Ca as [Ra Ta].
+  destruct (tflag_part_elim _ Ta) as (sa & ra & ta & ETa & ESa & ERa).
+  pose proof (coh_rest_elim _ Ra) as (A1 & A2 & A3 & A4 & A5 & A6 & A7 & A8 & A9).
+  pose proof (varlist_nonempty _ Ra) as NEa.
+  simpl in Rg. rewrite L in Rg.
+  destruct (filter (fun v => negb (Nat.eqb v k)) (varlist f)) as [|x l] eqn:EF; [discriminate|].
+  assert (Hx : In x (varlist f) /\ negb (Nat.eqb x k) = true).
+  { assert (Hin : In x (filter (fun v => negb (Nat.eqb v k)) (varlist f))) by (rewrite EF; left; reflexivity).
+    apply (proj1 (filter_In (fun v => negb (Nat.eqb v k)) x (varlist f))) in Hin. exact Hin. }
+  destruct Hx as [Hx1 Hx2].
+  eapply updatemeta_coherent; [exact H| | |].
+  - unfold newvl; simpl. destruct (varlist a) as [|v0 vt] eqn:EV; [congruence|]. rewrite <- EV in VL.
+    unfold listed_existing; simpl. apply (filter_nonempty _ x).
+    + rewrite VL. exact Hx1.
+    + apply memb_In. apply filter_In. split; [|exact Hx2]. rewrite DV.
+      apply coh_rest_elim in R as (_ & _ & _ & R4 & _). rewrite forallb_forall in R4. apply memb_In. apply R4. exact Hx1.
+  - simpl. exact A8.
+  - unfold tflag_keep_ok; simpl. rewrite ETa, ERa.
+    match goal with |- (if ?c then _ else _) = true => destruct c; [|reflexivity] end. apply pair_eqb_same.
+Qed.
+
 (* ---- one step / sequences ------------------------------------------------------------------------------------------ *)
 Theorem istep_coherent f o g :
   coherentb f = true -> iop_region f o = 0%nat -> istep f o = Ok g -> coherentb g = true.
@@ -454,6 +485,7 @@ Proof.
   - eapply mask_coherent; eauto.
   - eapply stack_coherent; eauto.
   - eapply interp_coherent; eauto.
+  - eapply delete_coherent; eauto.
 Qed.
 
 Theorem irun_coherent ops : forall f g,
